@@ -631,7 +631,8 @@ def g_scat_j2_colour(rot=False, canary=False):
        magc(re, im)[n,o] = sqrt(sum_c re[n,o,c]^2 + im[n,o,c]^2 + b^2) - b ; stage 3 input = magc(RE1, IM1) (6 channels)"""
     cls = 'ScatLayerj2_rot_f' if rot else 'ScatLayerj2_f'
     oid = '%s[combine_colour]' % cls
-    base = [Bn >= 1, H >= 1, W >= 1, bias > 0]
+    base = [Bn >= 1, H >= 1, W >= 1, bias >= 0]          # forward values for every bias >= 0; the backward obligations add bias > 0
+    POS = [bias > 0]
 
     def run():
         rec = Rec()
@@ -712,25 +713,25 @@ def g_scat_j2_colour(rot=False, canary=False):
         lowA, reA, imA = A[1]
         q4 = [z3.Int('Q%d' % q) for q in range(4)]
         rq4 = [z3.And(t >= 0, t < I(n)) for t, n in zip(q4, LL3.shape)]
-        obs.append(prove_terms(pid + '/backward/A/lowpass-cotangent', 'POST', list(c.pc) + rq4, lowA.at(q4),
+        obs.append(prove_terms(pid + '/backward/A/lowpass-cotangent', 'POST', list(c.pc) + POS + rq4, lowA.at(q4),
                                dz([q4[0], 3 + q4[1], simp(I(q4[2]) / 2), simp(I(q4[3]) / 2)]) * Fr(1, 4)))
         q5 = [z3.Int('R%d' % q) for q in range(5)]
         rq5 = [z3.And(t >= 0, t < I(n)) for t, n in zip(q5, RE3.shape)]
         R3 = tv_sqrt(r3(q5) * r3(q5) + i3(q5) * i3(q5) + b * b)
         d36 = dz([q5[0], 15 + 6 * q5[1] + q5[2], q5[3], q5[4]])
         for nm, t, src in (('real', reA, r3), ('imag', imA, i3)):
-            obs.append(prove_terms(pid + '/backward/A/%s-cotangent' % nm, 'POST', list(c.pc) + rq5, t.at(q5), d36 * (src(q5) / R3)))
+            obs.append(prove_terms(pid + '/backward/A/%s-cotangent' % nm, 'POST', list(c.pc) + POS + rq5, t.at(q5), d36 * (src(q5) / R3)))
         lowB, reB, imB = Bc[1]
         s4 = [z3.Int('S%d' % q) for q in range(4)]
         rs4 = [z3.And(t >= 0, t < I(n)) for t, n in zip(s4, LL2.shape)]
-        obs.append(prove_terms(pid + '/backward/B/lowpass-cotangent', 'POST', list(c.pc) + rs4, lowB.at(s4),
+        obs.append(prove_terms(pid + '/backward/B/lowpass-cotangent', 'POST', list(c.pc) + POS + rs4, lowB.at(s4),
                                dz([s4[0], s4[1], simp(I(s4[2]) / 2), simp(I(s4[3]) / 2)]) * Fr(1, 4)))
         t5 = [z3.Int('T%d' % q) for q in range(5)]
         rt5 = [z3.And(t >= 0, t < I(n)) for t, n in zip(t5, RE2.shape)]
         R2 = Rc(r2, i2, t5[0], t5[1], t5[3], t5[4])
         d2 = dz([t5[0], 9 + t5[1], t5[3], t5[4]])
         for nm, t, src in (('real', reB, r2), ('imag', imB, i2)):
-            obs.append(prove_terms(pid + '/backward/B/%s-cotangent' % nm, 'POST', list(c.pc) + rt5, t.at(t5), d2 * (src(t5) / R2)))
+            obs.append(prove_terms(pid + '/backward/B/%s-cotangent' % nm, 'POST', list(c.pc) + POS + rt5, t.at(t5), d2 * (src(t5) / R2)))
         lowC, reC, imC = Cc_[1]
         obs.append(Ob(pid + '/backward/C/lowpass-cotangent is the result of stage B', 'POST', 'proved' if lowC is Bc[7] else 'refuted', 'structural', 0))
         u5 = [z3.Int('U%d' % q) for q in range(5)]
@@ -738,5 +739,5 @@ def g_scat_j2_colour(rot=False, canary=False):
         R1 = Rc(r1, i1, u5[0], u5[1], u5[3], u5[4])
         dA = A[7].snap()([u5[0], u5[1], u5[3], u5[4]])
         for nm, t, src in (('real', reC, r1), ('imag', imC, i1)):
-            obs.append(prove_terms(pid + '/backward/C/%s-cotangent' % nm, 'POST', list(c.pc) + ru5, t.at(u5), dA * (src(u5) / R1)))
+            obs.append(prove_terms(pid + '/backward/C/%s-cotangent' % nm, 'POST', list(c.pc) + POS + ru5, t.at(u5), dA * (src(u5) / R1)))
     return obs, info
